@@ -89,6 +89,8 @@ fn fit_and_read(x: &DenseMatrix<f64>, y: &Vec<f64>, cfg: &Cfg, site: &str, what:
 
 const SCALES: [i32; 2] = [-3, 5];
 
+static CROSS_CHECKED: std::sync::atomic::AtomicBool = std::sync::atomic::AtomicBool::new(false);
+
 /// One execution: fit, judge, fit again, fit on rescaled features.
 fn exec_case(d: &Data, cfg: &Cfg, full: bool) {
     let ic = classify(d);
@@ -106,7 +108,10 @@ fn exec_case(d: &Data, cfg: &Cfg, full: bool) {
         mc::violation(site("deterministic"), format!("{}: fit on all rows / all features made {} random draws", what(), draws.len()));
     }
     let Some((model, bytes, tree)) = fitted else { return };
-    if mc::sampling() {
+    // read-back self-check: the first model fitted in every process and every sampled / replayed
+    // case is also read by field name from its JSON value and compared with the bincode view
+    // (done here, inside a supervised case, so that the parent process never runs library code)
+    if mc::sampling() || !CROSS_CHECKED.swap(true, std::sync::atomic::Ordering::Relaxed) {
         if let Err(e) = model.cross_check() {
             panic!("harness self-check failed: {}", e);
         }
@@ -549,7 +554,7 @@ impl Harness for C05 {
 
     fn assumptions(&self) -> Vec<String> {
         vec![
-            "the node array read through bincode equals the one read by field name from serde_json::to_value (proved at start-up and for every sampled case)".into(),
+            "the node array read through bincode equals the one read by field name from serde_json::to_value (checked on the first model of every worker process and on every sampled / replayed case)".into(),
             "routing convention: a row goes to true_child iff value <= threshold (the alternative '<' is accepted when it reproduces predict everywhere)".into(),
             "classification optimality / completeness / exact reproduction are demanded only when min_samples_leaf = 1 and the values within each feature are pairwise distinct, as in the statement".into(),
             "the tree fit with all features tried makes no random draw (checked: the RNG seam must stay silent)".into(),
@@ -558,27 +563,25 @@ impl Harness for C05 {
     }
 }
 
-fn selfcheck() -> Result<(), String> {
-    let x = DenseMatrix::from_2d_vec(&vec![vec![0.0, 3.0], vec![1.0, 2.0], vec![2.0, 1.0], vec![3.0, 0.5]]);
-    let y = vec![-3.0, 7.0, 7.0, 10.0];
-    for m in [Model::Reg, Model::Cls(Crit::Entropy)] {
-        let f = fit(&x, &y, &Cfg { model: m, depth: None, msl: 1, mss: 0 })?;
-        f.cross_check()?;
-        let t = mirror::from_bytes(&f.bytes()?, m.is_cls())?;
-        if t.nodes.len() < 5 {
-            return Err(format!("reference tree has only {} nodes", t.nodes.len()));
+/// Memory cap: a defect that makes tree growth run away allocates gigabytes per second, faster
+/// than the driver's per-case deadline can fire. This thread aborts the process above 2 GiB
+/// resident, which the driver sees as a crashed worker, re-runs in a fresh process and reports as a
+/// violation of termination (`termination.crash:<job>`). It never influences a verdict otherwise.
+fn start_memory_watchdog() {
+    std::thread::spawn(|| loop {
+        std::thread::sleep(std::time::Duration::from_millis(20));
+        let rss_pages = std::fs::read_to_string("/proc/self/statm").ok().and_then(|s| s.split_whitespace().nth(1).and_then(|v| v.parse::<u64>().ok())).unwrap_or(0);
+        if rss_pages * 4096 > (2u64 << 30) {
+            eprintln!("C05: resident set above 2 GiB inside one case (runaway tree growth?) - aborting this process");
+            std::process::abort();
         }
-    }
-    Ok(())
+    });
 }
 
 fn main() {
+    start_memory_watchdog();
     if let Err(e) = mc_sc::check_rng_sites() {
         eprintln!("MACHINERY-ERROR: {}", e);
-        std::process::exit(2);
-    }
-    if let Err(e) = selfcheck() {
-        eprintln!("MACHINERY-ERROR: C05 model read-back self-check failed: {}", e);
         std::process::exit(2);
     }
     mc::main(C05)
